@@ -95,6 +95,46 @@ def _metric(ctx, cfg):
             vc.check("MetricEvaluator/off-schedule epoch: nothing evaluated, nothing recorded", calls == [] and ev.past_values == [prior] and ev.last == {})
         vc.check("MetricEvaluator/never writes the training state", st.writes == [] and st.saved == [])
     vc.explore(run, "MetricEvaluator")
+
+    def run_exc():
+        # history: a metric raises during an evaluation, the caller catches the error and goes on (resumes the run from
+        # that epoch with the same callbacks): the failed evaluation left no record behind, complete or partial
+        period, epoch = vc.fresh_int("period", 1), vc.fresh_int("epoch")
+        vals = {"A": vc.fresh_real("valA"), "B": vc.fresh_real("valB")}
+        fail = [True]
+        calls = []
+
+        def mA(state, **kw):
+            calls.append("A")
+            return vals["A"]
+
+        def mB(state, **kw):
+            calls.append("B")
+            if fail[0]:
+                raise RuntimeError("metric failed")
+            return vals["B"]
+        ev = SB(period, {"A": mA, "B": mB}, verbose=False, log=None)
+        prior = (7, {"A": 1.0, "B": 2.0})
+        ev.past_values.append(prior)
+        ev.last = dict(prior[1])
+        st = State()
+        raised = False
+        try:
+            ev.on_epoch_end(st, epoch)
+        except RuntimeError:
+            raised = True
+        g = _gate(epoch, period)
+        vc.check("MetricEvaluator/exception: an error raised by a metric reaches the caller iff the epoch is on schedule", (g == raised) if isinstance(g, A.Sym) else (bool(g) == raised))
+        vc.check("MetricEvaluator/exception: a failed evaluation leaves no record (complete or partial) and the last values as they were",
+                 ev.past_values == [prior] and ev.past_values[0] is prior and ev.last == prior[1])
+        if raised:
+            fail[0] = False
+            del calls[:]
+            ev.on_epoch_end(st, epoch)
+            vc.check("MetricEvaluator/exception: evaluating the epoch again records exactly one complete record",
+                     len(ev.past_values) == 2 and ev.past_values[-1][0] is epoch and ev.past_values[-1][1] == {"A": vals["A"], "B": vals["B"]}
+                     and ev.last == ev.past_values[-1][1] and calls == ["A", "B"])
+    vc.explore(run_exc, "MetricEvaluator/exception")
     vc.flush()
     ctx.holds("exploration/paths > 0", vc.paths > 0)
 
@@ -136,6 +176,41 @@ def _observable(ctx, cfg):
         vc.check("ObservableEvaluator/never writes the training state", st.writes == [] and st.saved == [])
         vc.check("ObservableEvaluator/names are the observables' names in order", ev.names == ["SigmaZ", "SigmaX"])
     vc.explore(run, "ObservableEvaluator")
+
+    def run_exc():
+        period, epoch = vc.fresh_int("period", 1), vc.fresh_int("epoch")
+        ev = SB(period, [SigmaZ(), SigmaX()], verbose=False, log=None, num_samples=50, burn_in=3)
+        result = {"SigmaZ": {"mean": vc.fresh_real("mz"), "variance": vc.fresh_real("vz"), "std_error": vc.fresh_real("sz"), "num_samples": 50},
+                  "SigmaX": {"mean": vc.fresh_real("mx"), "variance": vc.fresh_real("vx"), "std_error": vc.fresh_real("sx"), "num_samples": 50}}
+        fail = [True]
+
+        class Sys:
+            observables = ev.system.observables
+
+            def statistics(self, state, **kw):
+                if fail[0]:
+                    raise RuntimeError("sampling failed")
+                return result
+        ev.system = Sys()
+        prior = (7, {"SigmaZ": {"mean": 0.1, "variance": 0.2, "std_error": 0.3, "num_samples": 50}, "SigmaX": {"mean": 0.4, "variance": 0.5, "std_error": 0.6, "num_samples": 50}})
+        ev.past_values.append(prior)
+        ev.last = dict(prior[1])
+        st = State()
+        raised = False
+        try:
+            ev.on_epoch_end(st, epoch)
+        except RuntimeError:
+            raised = True
+        g = _gate(epoch, period)
+        vc.check("ObservableEvaluator/exception: an error raised while sampling reaches the caller iff the epoch is on schedule", (g == raised) if isinstance(g, A.Sym) else (bool(g) == raised))
+        vc.check("ObservableEvaluator/exception: a failed evaluation leaves no record and the last values as they were",
+                 ev.past_values == [prior] and ev.past_values[0] is prior and ev.last == prior[1])
+        if raised:
+            fail[0] = False
+            ev.on_epoch_end(st, epoch)
+            vc.check("ObservableEvaluator/exception: evaluating the epoch again records exactly one record",
+                     len(ev.past_values) == 2 and ev.past_values[-1][0] is epoch and ev.past_values[-1][1] is result and ev.last == result)
+    vc.explore(run_exc, "ObservableEvaluator/exception")
     vc.flush()
     ctx.holds("exploration/paths > 0", vc.paths > 0)
 
